@@ -620,13 +620,113 @@ func (t *Term) write(sb *strings.Builder, named map[*Term]string) {
 		t.Args[n].write(sb, named)
 		sb.WriteByte(')')
 	default:
-		sb.WriteString("(" + t.Op)
+		op := t.Op
+		if op == "exdual" {
+			op = "or" // an existential in two equivalent index forms whose polarity was not resolved
+		}
+		sb.WriteString("(" + op)
 		for _, a := range t.Args {
 			sb.WriteByte(' ')
 			a.write(sb, named)
 		}
 		sb.WriteByte(')')
 	}
+}
+
+// ExDual is an existential formula given in two logically equivalent forms (relative and re-based array indices).
+// Polarize turns it into their disjunction where the formula is to be proved and into their conjunction where it
+// is assumed, so that a witness in either form is available on the side that needs it.
+func (p *TermPool) ExDual(rel, abs *Term) *Term {
+	if rel == abs {
+		return rel
+	}
+	return p.mk("exdual", "", SBool, rel, abs)
+}
+
+// Polarize resolves ExDual nodes: pol > 0 means the term is a goal, pol < 0 a hypothesis.
+func (p *TermPool) Polarize(t *Term, pol int) *Term {
+	memo := map[[2]interface{}]*Term{}
+	has := map[*Term]bool{}
+	var hasDual func(t *Term) bool
+	hasDual = func(t *Term) bool {
+		if v, ok := has[t]; ok {
+			return v
+		}
+		r := t.Op == "exdual"
+		for _, a := range t.Args {
+			if r {
+				break
+			}
+			if hasDual(a) {
+				r = true
+			}
+		}
+		has[t] = r
+		return r
+	}
+	var rec func(t *Term, pol int) *Term
+	rec = func(t *Term, pol int) *Term {
+		if !hasDual(t) {
+			return t
+		}
+		k := [2]interface{}{t, pol}
+		if v, ok := memo[k]; ok {
+			return v
+		}
+		var out *Term
+		switch t.Op {
+		case "exdual":
+			a, b := rec(t.Args[0], pol), rec(t.Args[1], pol)
+			if pol < 0 {
+				out = a // as a hypothesis: the relative-index form (its witness serves the relative disjunct of a goal)
+				_ = b
+			} else {
+				out = p.Or(a, b)
+			}
+		case "not":
+			out = p.Not(rec(t.Args[0], -pol))
+		case "=>":
+			out = p.Implies(rec(t.Args[0], -pol), rec(t.Args[1], pol))
+		case "and":
+			var as []*Term
+			for _, a := range t.Args {
+				as = append(as, rec(a, pol))
+			}
+			out = p.And(as...)
+		case "or":
+			var as []*Term
+			for _, a := range t.Args {
+				as = append(as, rec(a, pol))
+			}
+			out = p.Or(as...)
+		case "forall", "exists":
+			n := len(t.Args) - 1
+			body := rec(t.Args[n], pol)
+			out = p.Quant(t.Op, t.Args[:n], body)
+		case "ite":
+			if t.S == SBool {
+				out = p.Ite(rec(t.Args[0], 0), rec(t.Args[1], pol), rec(t.Args[2], pol))
+			} else {
+				out = t
+			}
+		case "=":
+			if len(t.Args) == 2 && t.Args[0].S == SBool && pol != 0 {
+				// a Boolean equivalence: both directions, each side in both polarities
+				l, r := t.Args[0], t.Args[1]
+				out = p.And(p.Implies(rec(l, -pol), rec(r, pol)), p.Implies(rec(r, -pol), rec(l, pol)))
+				if pol < 0 {
+					// as a hypothesis the conjunction of the two implications is the equivalence itself
+				}
+			} else {
+				out = t
+			}
+		default:
+			out = t
+		}
+		memo[k] = out
+		return out
+	}
+	return rec(t, pol)
 }
 
 // Script renders a satisfiability query: all hyps asserted, produce-models on.
